@@ -105,11 +105,12 @@ func loadKinds(r *h.Run) {
 
 // spec of an error value handed to a constructor: K = sent|nil|canceled|deadline|opaque|fwrap|new|foreign
 type spec struct {
-	K     string `json:"k"`
-	Kind  int    `json:"kind,omitempty"`  // sent, new
-	M     []byte `json:"m,omitempty"`     // opaque: text; fwrap: prefix; new: message
-	Inner *spec  `json:"inner,omitempty"` // fwrap: fmt.Errorf("%s: %w", M, inner)
-	F     int    `json:"f,omitempty"`     // foreign: 0 io.EOF, 1 io.ErrUnexpectedEOF
+	K      string `json:"k"`
+	Kind   int    `json:"kind,omitempty"`   // sent, new
+	M      []byte `json:"m,omitempty"`      // opaque: text; fwrap: prefix; new: message
+	Inner  *spec  `json:"inner,omitempty"`  // fwrap: fmt.Errorf("%s: %w", M, inner); wrapof: the cause; multi/join: first member
+	Inner2 *spec  `json:"inner2,omitempty"` // multi: fmt.Errorf("%w: %s: %w", inner, M, inner2); join: errors.Join(inner, inner2)
+	F      int    `json:"f,omitempty"`      // foreign: 0 io.EOF, 1 io.ErrUnexpectedEOF
 }
 
 // op: New|Newf|Errorf|Wrap|WrapINC|WrapT|WrapINCT ; F = use the formatting variant with ("%v", m)
@@ -160,6 +161,12 @@ func (s *spec) value() error {
 		return ce.New(kinds[s.Kind], string(s.M))
 	case "foreign":
 		return foreignVals[s.F]
+	case "wrapof": // a nested constructor's result: WrapError(kind, inner, M)
+		return ce.WrapError(kinds[s.Kind], s.Inner.value(), string(s.M))
+	case "multi": // a composite that wraps BOTH members
+		return fmt.Errorf("%w: %s: %w", s.Inner.value(), string(s.M), s.Inner2.value())
+	case "join":
+		return errors.Join(s.Inner.value(), s.Inner2.value())
 	}
 	panic("spec " + s.K)
 }
@@ -188,6 +195,10 @@ func (s *spec) coqErr() string {
 		return fmt.Sprintf("(new (Some (Sent %d%%nat)) %s)", s.Kind, h.Bytes(s.M))
 	case "foreign":
 		return fmt.Sprintf("(Foreign %d%%nat %s)", s.F, h.Str(foreignVals[s.F].Error()))
+	case "wrapof":
+		return fmt.Sprintf("(wrap_error (Some (Sent %d%%nat)) %s %s)", s.Kind, s.Inner.coq(), h.Bytes(s.M))
+	case "multi", "join":
+		return "(Multi " + h.Str(s.value().Error()) + " " + s.Inner.coqErr() + " " + s.Inner2.coqErr() + ")"
 	}
 	panic("spec " + s.K)
 }
@@ -199,6 +210,9 @@ func (s *spec) strs() [][]byte {
 	out := [][]byte{s.M}
 	if s.Inner != nil {
 		out = append(out, s.Inner.strs()...)
+	}
+	if s.Inner2 != nil {
+		out = append(out, s.Inner2.strs()...)
 	}
 	return out
 }
@@ -253,6 +267,40 @@ func (c *chain) build() error {
 	return cur
 }
 
+func (c *chain) operands() []error {
+	out := []error{c.Base.value()}
+	for _, o := range c.Ops {
+		if o.T != nil {
+			out = append(out, o.T.value())
+		}
+	}
+	return out
+}
+
+// wrapsLibOnlyJoin: an errors.Join without raw context error stays wrapped in the result; the serialiser then treats
+// the result as a join (not modelled for chains): such scenarios go through the oracles but not through the Coq cases
+func (s *spec) libOnlyJoin() bool {
+	if s == nil {
+		return false
+	}
+	if s.K == "join" && refOf(s).rawCtx == 0 {
+		return true
+	}
+	return s.Inner.libOnlyJoin() || s.Inner2.libOnlyJoin()
+}
+
+func (c *chain) hasLibOnlyJoin() bool {
+	if c.Base.libOnlyJoin() {
+		return true
+	}
+	for _, o := range c.Ops {
+		if o.T.libOnlyJoin() {
+			return true
+		}
+	}
+	return false
+}
+
 func (c *chain) coq() (string, string) {
 	ops := make([]string, len(c.Ops))
 	for i, o := range c.Ops {
@@ -283,9 +331,15 @@ func (c *chain) strs() [][]byte {
 type ref struct {
 	isNil  bool
 	kind   int // -1 none
-	rawCtx int // 0 no, 1 context.Canceled, 2 context.DeadlineExceeded (raw or wrapped by a foreign wrapper)
+	rawCtx int // 0 no, 1 context.Canceled, 2 context.DeadlineExceeded (raw, wrapped by a foreign wrapper, or inside a composite)
 	text   string
+	// composites (several errors wrapped at once) without a raw context error: the reference does not predict ONE kind
+	multi  bool
+	common bool // some library kind is reachable
+	libCtx bool // a library cancelled / timeout kind is reachable
 }
+
+func (r ref) isCommon() bool { return !r.isNil && (r.kind >= 0 || r.common) }
 
 func (r ref) ctxKind() int { // the context kind it stands for, -1 if none
 	switch {
@@ -316,11 +370,27 @@ func refOf(s *spec) ref {
 		return ref{kind: -1, text: string(s.M)}
 	case "fwrap":
 		in := refOf(s.Inner)
-		return ref{kind: in.kind, rawCtx: in.rawCtx, text: string(s.M) + ": " + in.text}
+		return ref{kind: in.kind, rawCtx: in.rawCtx, text: string(s.M) + ": " + in.text, multi: in.multi, common: in.common, libCtx: in.libCtx}
 	case "new":
 		return ref{kind: s.Kind, text: kinds[s.Kind].Error() + ": " + string(s.M)}
 	case "foreign":
 		return ref{kind: -1, text: foreignVals[s.F].Error()}
+	case "wrapof":
+		return refWrap(ref{kind: s.Kind, text: kinds[s.Kind].Error()}, refOf(s.Inner), string(s.M))
+	case "multi", "join":
+		a, b := refOf(s.Inner), refOf(s.Inner2)
+		out := ref{kind: -1, text: s.value().Error()}
+		switch { // ConvertContextError looks for context.Canceled first
+		case a.rawCtx == 1 || b.rawCtx == 1:
+			out.rawCtx = 1
+		case a.rawCtx == 2 || b.rawCtx == 2:
+			out.rawCtx = 2
+		}
+		out.multi = true
+		out.common = a.isCommon() || b.isCommon()
+		isCtx := func(x ref) bool { return x.libCtx || x.kind == kCancelled || x.kind == kTimeout }
+		out.libCtx = isCtx(a) || isCtx(b)
+		return out
 	}
 	panic("spec")
 }
@@ -339,24 +409,25 @@ func asTarget(t ref) ref {
 
 func refNew(t ref, m string) ref {
 	t = asTarget(t)
-	return ref{kind: t.kind, text: t.text + ": " + m}
+	// a composite without raw context error stays wrapped as it is: several kinds, no single prediction
+	return ref{kind: t.kind, text: t.text + ": " + m, multi: t.multi, common: t.common, libCtx: t.libCtx}
 }
 
 func refWrap(t, cause ref, m string) ref {
 	if cause.isNil {
 		return refNew(t, m)
 	}
-	if cause.ctxKind() >= 0 { // a cancellation / deadline is never reclassified
+	if cause.ctxKind() >= 0 || cause.libCtx { // a cancellation / deadline is never reclassified
 		return refNew(asTarget(cause), m+": "+cause.text)
 	}
 	return refNew(t, m+": "+cause.text)
 }
 
 func refWrapINC(t, cause ref, m string) ref {
-	if t.ctxKind() >= 0 {
+	if t.ctxKind() >= 0 || t.libCtx {
 		return refWrap(t, cause, m)
 	}
-	if !cause.isNil && cause.kind >= 0 {
+	if cause.isCommon() {
 		return refNew(cause, m)
 	}
 	return refWrap(t, cause, m)
@@ -512,6 +583,16 @@ func runChain(r *h.Run, sc scenario, emit bool) {
 	text := e.Error()
 	got := kindsOf(e)
 	ctor := lastCtor(c)
+	// whenever a cancellation or a deadline is reachable by errors.Is from ANY operand (target, cause, original; sentinel,
+	// raw context error or a composite mixing it with a library kind), the result is of the cancelled / timeout kind
+	if len(c.Ops) > 0 {
+		for _, v := range c.operands() {
+			if v != nil && (errors.Is(v, context.Canceled) || errors.Is(v, context.DeadlineExceeded) || ce.Any(v, ce.ErrTimeout, ce.ErrCancelled)) && !ce.Any(e, ce.ErrTimeout, ce.ErrCancelled) {
+				r.Fail("context-cause-reclassified:"+ctor, fmt.Sprintf("an operand (%q) is a cancellation / deadline but the result %q is of kinds %v", v.Error(), text, got), sc)
+				break
+			}
+		}
+	}
 	oracle := len(c.Ops) > 0 && want.kind >= 0 // the property speaks of errors built by the constructors on a kind
 	if oracle {
 		r.Count("kind=" + kindNames[want.kind])
@@ -565,7 +646,8 @@ func runChain(r *h.Run, sc scenario, emit bool) {
 			r.Distinct(fmt.Sprintf("%d|%s|%d", want.kind, wantReason, len(c.Ops)))
 		}
 	}
-	if emit && modelSafe(c.strs()...) {
+	_, topMulti := e.(interface{ Unwrap() []error }) // a bare composite (no constructor applied) is serialised as a join: not a chain
+	if emit && modelSafe(c.strs()...) && !c.hasLibOnlyJoin() && !topMulti {
 		b, ops := c.coq()
 		oldCase(r, fmt.Sprintf("(CChain %s %s %s %s %s %s)", b, ops, h.Str(text), coqBools(isVector(e)), h.Bytes(ser), d.coq()), sc)
 	}
@@ -901,6 +983,9 @@ func genSpec(r *h.Run, role string) *spec {
 		return &spec{K: "opaque", M: append([]byte("boom "), genMsg(r, false)...)}
 	case x < 11:
 		return &spec{K: "nil"}
+	case x < 12:
+		cs := compositeSpecs()
+		return cs[r.Rng.Intn(len(cs))]
 	case x < 13:
 		return &spec{K: "canceled"}
 	case x < 15:
@@ -921,6 +1006,62 @@ func genSpec(r *h.Run, role string) *spec {
 			return &spec{K: "fwrap", M: []byte("open /x"), Inner: o}
 		}
 		return o
+	}
+}
+
+// compositeSpecs: errors that are a library kind AND a context error at the same time (double %w, errors.Join, nested
+// constructors' results), in either order and at several depths; plus composites of two library kinds
+func compositeSpecs() []*spec {
+	unav := kindIndex(ce.ErrUnavailable)
+	conf := kindIndex(ce.ErrConflict)
+	inv := kindIndex(ce.ErrInvalid)
+	libs := []*spec{{K: "new", Kind: unav, M: []byte("busy")}, {K: "sent", Kind: conf}}
+	ctxs := []*spec{{K: "canceled"}, {K: "deadline"}, {K: "fwrap", M: []byte("rpc failed"), Inner: &spec{K: "deadline"}},
+		{K: "wrapof", Kind: inv, M: []byte("inner step"), Inner: &spec{K: "canceled"}}, {K: "new", Kind: kTimeout, M: []byte("late")}}
+	var out []*spec
+	for li, a := range libs {
+		for ci, c := range ctxs {
+			k := []string{"multi", "join"}[(li+ci)%2]
+			k2 := []string{"join", "multi"}[(li+ci)%2]
+			out = append(out, &spec{K: k, M: []byte("and"), Inner: a, Inner2: c}, &spec{K: k2, M: []byte("then"), Inner: c, Inner2: a})
+		}
+	}
+	op := &spec{K: "opaque", M: []byte("boom")}
+	out = append(out,
+		&spec{K: "multi", M: []byte("outer"), Inner: &spec{K: "multi", M: []byte("in"), Inner: libs[0], Inner2: op}, Inner2: &spec{K: "deadline"}},
+		&spec{K: "join", Inner: op, Inner2: &spec{K: "join", Inner: &spec{K: "canceled"}, Inner2: libs[1]}},
+		&spec{K: "multi", M: []byte("both"), Inner: &spec{K: "deadline"}, Inner2: &spec{K: "canceled"}},
+		&spec{K: "fwrap", M: []byte("layer"), Inner: &spec{K: "multi", M: []byte("and"), Inner: libs[0], Inner2: &spec{K: "canceled"}}},
+		&spec{K: "multi", M: []byte("and"), Inner: libs[0], Inner2: libs[1]},
+		&spec{K: "multi", M: []byte("and"), Inner: op, Inner2: &spec{K: "deadline"}},
+	)
+	return out
+}
+
+// compositeSweep: every composite in every operand position of every constructor
+func compositeSweep(r *h.Run) {
+	inv := kindIndex(ce.ErrInvalid)
+	nf := kindIndex(ce.ErrNotFound)
+	m := []byte("while working")
+	opq := &spec{K: "opaque", M: []byte("cause")}
+	for _, x := range compositeSpecs() {
+		var cs []chain
+		for _, ctor := range []string{"New", "Newf", "Errorf"} { // x is the target
+			cs = append(cs, chain{Base: x, Ops: []op{{Op: ctor, M: m}}}, chain{Base: x, Ops: []op{{Op: ctor, M: m, F: true}}})
+		}
+		for _, cause := range []*spec{{K: "nil"}, opq, {K: "new", Kind: nf, M: []byte("gone")}} { // x is the target of the wrappers
+			cs = append(cs, chain{Base: x, Ops: []op{{Op: "WrapT", T: cause, M: m}}}, chain{Base: x, Ops: []op{{Op: "WrapINCT", T: cause, M: m}}})
+		}
+		for _, base := range []*spec{sent(inv), {K: "new", Kind: nf, M: []byte("gone")}, opq, {K: "nil"}} { // x is the target, the chain so far the cause / original
+			cs = append(cs, chain{Base: base, Ops: []op{{Op: "Wrap", T: x, M: m}}}, chain{Base: base, Ops: []op{{Op: "WrapINC", T: x, M: m, F: true}}})
+		}
+		for _, t := range []*spec{sent(inv), {K: "nil"}, {K: "new", Kind: kTimeout, M: []byte("late")}} { // x is the cause / original
+			cs = append(cs, chain{Base: x, Ops: []op{{Op: "Wrap", T: t, M: m}}}, chain{Base: x, Ops: []op{{Op: "WrapINC", T: t, M: m}}})
+		}
+		cs = append(cs, chain{Base: x, Ops: []op{{Op: "New", M: m}, {Op: "WrapINC", T: sent(inv), M: []byte("outer")}, {Op: "Errorf", M: []byte("again")}}})
+		for i := range cs {
+			run(r, scenario{Kind: "chain", Chain: &cs[i]}, true)
+		}
 	}
 }
 
@@ -981,6 +1122,9 @@ func main() {
 	run(r, scenario{Kind: "chain", Chain: &chain{Base: pathErr, Ops: []op{{Op: "WrapT", T: &spec{K: "opaque", M: []byte("cause")}, M: []byte("msg")}}}}, true)
 	run(r, scenario{Kind: "chain", Chain: &chain{Base: &spec{K: "opaque", M: []byte("boom")}, Ops: []op{{Op: "New", M: []byte("a")}, {Op: "New", M: []byte("b")}}}}, true)
 	run(r, scenario{Kind: "join", Chains: []chain{{Base: pathErr, Ops: []op{{Op: "New", M: []byte("msg")}}}, {Base: sent(nf), Ops: []op{{Op: "New", M: []byte("x")}}}}}, true)
+
+	// --- composites (a library kind AND a context error) in every operand position of every constructor
+	compositeSweep(r)
 
 	// --- every kind x every corpus message x direct constructors
 	emitEvery := r.N(4, 1)
